@@ -64,6 +64,61 @@ def gen(ctx):
             rows = [oq.elevate(r) for r in rows]
         if all(F(float(v)) == v for r in rows for v in r):
             out.append({"rows": rows, "kind": "grid-loop", "a": (1 - F(k, 8)) / 2, "b": (1 + F(k, 8)) / 2})
+    # the grid loops presented SMALL (scaled by 2^-7 .. 2^-13, exact): nothing absolute may enter (seed c18-8: an absolute
+    # parallelism threshold in segment_intersection drops the crossing of small loops whose branches linearize at different depths)
+    small = []
+    for c in [c for c in out if c["kind"] == "grid-loop"]:
+        for k in (7, 10, 13):
+            sc = F(1, 2 ** k)
+            small.append(dict(c, rows=[[v * sc for v in r] for r in c["rows"]], kind="grid-loop", scale=k))
+    for _ in range(10 if ctx.quick() else 200):
+        # asymmetric small loops: a planted crossing, scaled
+        n = rng.randint(3, 5)
+        rows, a, b = planted(rng, n)
+        k = rng.choice([7, 10, 12, 13])
+        sc = F(1, 2 ** k)
+        cand_ = {"rows": [[v * sc for v in r] for r in rows], "kind": "planted", "a": a, "b": b, "scale": k}
+        if planted_is_clear(cand_):          # nearly tangential planted crossings make no claim: not presented small at all
+            small.append(cand_)
+    # random integer cubics with exactly one self-crossing (closed form: (B(s) - B(t))/(s - t) = c1 + c2 u + c3 w, u = s + t,
+    # w = u^2 - s t is linear in (u, w)), well inside (0,1) and transversal, presented at sizes 1, 2^-10, 2^-12, 2^-13
+    tries = 0
+    loops = 0
+    # (corpus first: four loops whose branches linearize at different depths, from seed c18-8)
+    corpus = [((5, -7, -5, -3), (3, 4, 2, 4)), ((6, -8, -3, -4), (-7, 4, -1, 1)), ((-7, -1, -6, -2), (0, 3, -6, 8)), ((4, -3, 4, -1), (-6, -1, -7, -1))]
+    while loops < (10 if ctx.quick() else 124) and tries < 20000:
+        tries += 1
+        if corpus:
+            xs_, ys_ = corpus.pop(0)
+            P = [(F(x), F(y)) for x, y in zip(xs_, ys_)]
+        else:
+            P = [(F(rng.randint(-8, 8)), F(rng.randint(-8, 8))) for _ in range(4)]
+        c1 = [3 * (P[1][k] - P[0][k]) for k in (0, 1)]
+        c2 = [3 * (P[0][k] - 2 * P[1][k] + P[2][k]) for k in (0, 1)]
+        c3 = [P[3][k] - 3 * P[2][k] + 3 * P[1][k] - P[0][k] for k in (0, 1)]
+        det = c2[0] * c3[1] - c2[1] * c3[0]
+        if det == 0:
+            continue
+        u = (-c1[0] * c3[1] + c1[1] * c3[0]) / det
+        w = (-c2[0] * c1[1] + c2[1] * c1[0]) / det
+        disc = u * u - 4 * (u * u - w)
+        if disc <= 0:
+            continue
+        root = math.sqrt(float(disc))
+        s_, t_ = 0.5 * (float(u) - root), 0.5 * (float(u) + root)
+        if not (0.06 < s_ < 0.94 and 0.06 < t_ < 0.94 and t_ - s_ > 0.15):
+            continue
+        rows0 = [[p[0] for p in P], [p[1] for p in P]]
+        d = lambda x: [3 * oq.bernstein([r[i + 1] - r[i] for i in range(3)], F(x).limit_denominator(2 ** 20)) for r in rows0]
+        da, db = d(s_), d(t_)
+        cr = da[0] * db[1] - da[1] * db[0]
+        if cr * cr * 16 < (da[0] ** 2 + da[1] ** 2) * (db[0] ** 2 + db[1] ** 2):
+            continue                                  # crossing angle below about 14 degrees
+        loops += 1
+        for k in (0, 10, 12, 13):
+            sc = F(1, 2 ** k)
+            small.append({"rows": [[v * sc for v in r] for r in rows0], "kind": "integer-loop", "a": s_, "b": t_, "scale": k})
+    out.extend(small)
     # the same loops re-parametrised (exact specialization to a dyadic interval [al, be]) so that ONE of the two crossing
     # parameters is exactly the split point 1/2 (or 1/4, 3/4: a split point of the second level): the crossing is then found by
     # the left-right intersection AND inside a half, and must still be reported exactly once (finding F19, repaired)
@@ -107,8 +162,20 @@ def coq_traced(c, obs):
     return ["([%s], [%s], %s)" % ("; ".join("true" if a else "false" for a in angles), "; ".join(pl(i) for i in isects), pl(out))]
 
 
+def planted_is_clear(c):
+    """the planted crossing B(a) = B(b) is transversal with a clear angle (|sin| >= 2^-5): only then the property claims it"""
+    n = len(c["rows"][0]) - 1
+    d = lambda s: [n * oq.bernstein([r[i + 1] - r[i] for i in range(n)], s) for r in c["rows"]]
+    da, db = d(c["a"]), d(c["b"])
+    cr = da[0] * db[1] - da[1] * db[0]
+    return cr * cr * 2 ** 10 >= (da[0] ** 2 + da[1] ** 2) * (db[0] ** 2 + db[1] ** 2)
+
+
 def judge(c, op, cfg, raw):
     if "exc" in raw:
+        if c["kind"] == "planted" and c.get("scale") and not planted_is_clear(c):
+            return None      # a nearly tangential planted crossing of a small net: a refusal makes no claim (false alarm of the
+                             # thorough tier when the small presentations were added: two crossings 3e-3 apart, 'Unsupported multiplicity')
         return "raised %s: %s" % (raw["exc"], raw.get("msg", "")[:80])
     arr = dec_res(raw["ok"])
     pairs = list(zip(arr[0], arr[1])) if arr and arr[0] else []
@@ -131,6 +198,10 @@ def judge(c, op, cfg, raw):
             cr = da[0] * db[1] - da[1] * db[0]
             if cr * cr * 2 ** 10 >= (da[0] ** 2 + da[1] ** 2) * (db[0] ** 2 + db[1] ** 2):
                 return "planted transversal self-crossing B(%s) = B(%s) not reported (got %s)" % (c["a"], c["b"], [tuple(map(float, p)) for p in pairs])
+    if c["kind"] == "integer-loop":
+        if len(pairs) != 1 or abs(float(pairs[0][0]) - c["a"]) > 1e-9 or abs(float(pairs[0][1]) - c["b"]) > 1e-9:
+            return "integer cubic loop (size 2^-%d) crossing itself exactly once at (%.12f, %.12f): got %s" % (
+                c["scale"], c["a"], c["b"], [tuple(map(float, p)) for p in pairs])
     if c["kind"] == "split-loop":
         if len(pairs) != 1 or abs(pairs[0][0] - c["a"]) > F(1, 2 ** 30) or abs(pairs[0][1] - c["b"]) > F(1, 2 ** 30):
             return "cubic loop crossing itself exactly once, at (%s, %s) with a parameter on a split point: got %s" % (
